@@ -92,6 +92,52 @@ PROGRAMS = [
 ]
 
 
+# Shapes used by C14/C15 only (load_pool); not part of PROGRAMS, which the
+# shared pool of mc/progpool.py hands to every other check.
+def _extra_programs():
+    out = []
+    # _Atomic( type-name ) with array / pointer / function declarators inside, in every position
+    for t in ["int [3]", "long *[2]", "int [2][3]", "char *[4]", "int (*)[2]", "int *", "int (*)(int [2])",
+              "struct S [2]", "unsigned char [1]"]:
+        out += [f"_Atomic({t}) x;", f"int z = sizeof(_Atomic({t}));", f"typedef _Atomic({t}) at_t; at_t v;",
+                f"struct SA {{ _Atomic({t}) m; int n; }};", f"void fa(_Atomic({t}) p, int q);",
+                f"void fb(void) {{ _Atomic({t}) loc; (void)(_Atomic({t}) *)0; }}"]
+    # switch bodies: case/default labels directly followed by pragma lines and by another label
+    labels = ["case 1:", "case 2:", "default:"]
+    pragmas = ["", "#pragma one\n", "#pragma one\n#pragma two\n", "#pragma a\n#pragma b\n#pragma c\n"]
+    import itertools
+    for l1, l2 in itertools.permutations(labels, 2):
+        for p1 in pragmas:
+            for p2 in pragmas[:2]:
+                for tail in ["n++; break;", ";", ""]:
+                    if not tail and not p2:
+                        body = f"{l1}\n{p1}{l2} ;"
+                    else:
+                        body = f"{l1}\n{p1}{l2}\n{p2}{tail}" + ("" if tail else ";")
+                    out.append(f"void sw(int n) {{ switch (n) {{ {body} }} }}")
+    for l1, l2, l3 in itertools.permutations(labels, 3):
+        out.append(f"void sw3(int n) {{ switch (n) {{ {l1} n++;\n#pragma mid\n{l2}\n#pragma x\n#pragma y\n{l3}\n#pragma last\n; }} }}")
+    out.append("void swn(int n) { switch (n) { case 1: { case 2:\n#pragma in\ncase 3: ; }\n#pragma out\ndefault: ; } }")
+    # coordinates at the boundaries: line 0, line 1, huge lines, empty file name
+    out += [
+        "#line 0\nint l0; int l0b;\n# 0 \"zero.c\"\nint l1; void zf(int a) { return; }\n",
+        "# 4294967295 \"huge.c\"\nint l2;\n# 1 \"\"\nint l3;\n#line 2147483647\nint l4;\n# 1 \"one.c\" 1\nint l5;",
+        "#line 0\n#pragma at zero\nint pz = 1 + 2; struct Z { int m; } z0;",
+        "# 0 \"\"\nint e0 = (0);",
+    ]
+    # pragma texts that end in backslashes / contain quotes / non-ASCII
+    for text in ["omp parallel \\", "two \\\\", "three \\\\\\", "q \"dq\" 'sq' \\", "caf\u00e9 \u4e2d \\", "\\", "\\\\",
+                 "'", "\"", "a'b\"c\\", "mid\\dle", "r'raw' \\"]:
+        out.append(f"#pragma {text}\nint pc;")
+        out.append(f"void pf(void) {{\n#pragma {text}\n  ;\n}}")
+        out.append(f"struct PS {{\n#pragma {text}\n  int m;\n}};")
+    seen = set()
+    return [t for t in out if not (t in seen or seen.add(t))]
+
+
+EXTRA_PROGRAMS = _extra_programs()
+
+
 def verify():
     """(ok, message, class_histogram): every program parses on the tree under
     test; every class named in _c_ast.cfg occurs in some AST (found by walking
@@ -152,6 +198,8 @@ def load_pool(tier):
             sizes["progpool/" + k] = v
     progs += [(f"M:{i}", p) for i, p in enumerate(PROGRAMS)]
     sizes["M"] = len(PROGRAMS)
+    progs += [(f"X:{i}", p) for i, p in enumerate(EXTRA_PROGRAMS)]
+    sizes["X"] = len(EXTRA_PROGRAMS)
     ks = [(f"K:{n}", t) for n, t in corpus.corpus(tier)]
     progs += ks
     sizes["K"] = len(ks)
